@@ -42,6 +42,30 @@ Proof.
 Qed.
 Print Assumptions C17_boundary_roundtrip.
 
+(* the same round trip when the DECODER works with another neighbour table f2t' (from_meshio: the table of the mesh as
+   loaded, e.g. with sorted cells) but with the SAME slot table t2f as the encoder (from_meshio passes the slot table of the
+   connectivity as read; checked by the translator): facets sorted, and the decoded flag keeps the tagged side — whenever
+   the owner cell chosen by the encoder is one of the two distinct neighbours in f2t', the flag selects it *)
+Theorem C17_boundary_roundtrip_loaded_tables :
+  (forall (nslots nt : nat) (t2f : mat nat) (f2t f2t' : mat Z) (ori : list bool) (b : list nat),
+     length ori = length b -> NoDup b ->
+     (forall f o, In (f, o) (combine b ori) -> coherent1 nslots nt t2f f2t f o) ->
+     gen_decode_boundary nslots nt t2f f2t' (gen_encode_boundary nslots nt t2f f2t ori b)
+     = (map fst (sort_kv (combine b ori)),
+        map (fun fo : nat * bool => Z.eqb (get2 (- 1)%Z f2t' 1 (fst fo)) (side_cell f2t (snd fo) (fst fo)))
+            (sort_kv (combine b ori)))) /\
+  (forall (f2t' : mat Z) (f : nat) (c : Z),
+     get2 (- 1)%Z f2t' 0 f <> get2 (- 1)%Z f2t' 1 f ->
+     (c = get2 (- 1)%Z f2t' 0 f \/ c = get2 (- 1)%Z f2t' 1 f) ->
+     get2 (- 1)%Z f2t' (if Z.eqb (get2 (- 1)%Z f2t' 1 f) c then 1 else 0) f = c).
+Proof.
+  split; [|exact decoded_flag_keeps_side].
+  intros nslots nt t2f f2t f2t' ori b Hlen Hnd Hcoh.
+  rewrite gen_decode_boundary_is_model, gen_encode_boundary_is_model.
+  exact (boundary_roundtrip_other_f2t nslots nt t2f f2t f2t' ori b Hlen Hnd Hcoh).
+Qed.
+Print Assumptions C17_boundary_roundtrip_loaded_tables.
+
 (* what that right-hand side is: the facet column is strictly increasing and has exactly the tagged facets;
    the (facet, flag) pairs are exactly the tagged pairs *)
 Theorem C17_roundtrip_result_spec :
@@ -98,19 +122,29 @@ Proof.
 Qed.
 Print Assumptions C17_hex_perm_inverse.
 
-(* npz key scheme: for all tag names and every subset `on` of boundaries that carry orientation flags, the keys
+(* npz key scheme (with the optional key sort_t): for all tag names and every subset `on` of boundaries that carry orientation flags, the keys
    written by save_npz are read back by load_npz as exactly the boundary names and exactly the subdomain names (the
    fixed keys doflocs / t and the flag arrays are not mistaken for tags), and a boundary finds its flag array iff it
    was written *)
 Theorem C17_npz_keys_roundtrip :
-  forall (bn sn on : list String.string),
+  forall (bn sn on : list String.string) (unsorted : bool),
     let keys := gen_npz_fixed_keys ++ map (key_with_prefix gen_npz_save_b) bn
                                    ++ map (key_with_prefix gen_npz_save_s) sn
-                                   ++ map (key_with_prefix gen_npz_save_o) on in
+                                   ++ map (key_with_prefix gen_npz_save_o) on
+                                   ++ (if unsorted then [gen_npz_sort_t_key] else []) in
     decode_keys gen_npz_load_b keys = bn /\ decode_keys gen_npz_load_s keys = sn /\
-    forall n, In (key_with_prefix gen_npz_load_o n) keys <-> In n on.
+    (forall n, In (key_with_prefix gen_npz_load_o n) keys <-> In n on) /\
+    (In gen_npz_sort_t_key keys <-> unsorted = true).
 Proof. exact npz_keys_roundtrip. Qed.
 Print Assumptions C17_npz_keys_roundtrip.
+
+(* the optional key sort_t of to_dict / save_npz (written only when the flag differs from the class default, read back when
+   present, class default otherwise): the flag comes back for every class default and every value, so cells that are not
+   in ascending vertex order (oriented()) are not re-sorted on load and f2t, hence the meaning of the flags, is kept *)
+Theorem C17_sort_t_roundtrip :
+  forall default v : bool, gen_sort_t_load default (gen_sort_t_save default v) = v.
+Proof. exact gen_sort_t_roundtrip. Qed.
+Print Assumptions C17_sort_t_roundtrip.
 
 (* dict_roundtrip (to_dict / from_dict, hence JSON): for pairwise distinct boundary names every boundary comes back
    with its facet list and with exactly its orientation flags (none for unoriented ones) *)
